@@ -12,7 +12,7 @@ Import ListNotations.
 Open Scope Z_scope.
 
 Inductive transport := TPipe | TTcp | TUdp.
-Inductive kind := KUndecided | KMatchRead | KEmptyFbRead.
+Inductive kind := KUndecided | KMatchRead | KEmptyFbRead | KNonTermUndecided.
 Inductive oclass := OTimeout | OFull | ONetErr | ORan | OFallback | ONone.
 Inductive hres := RdNone | RdOk | RdFail.
 
@@ -44,6 +44,8 @@ Definition arrivals (tr : transport) (sends : list (Z * Z)) : list (Z * list byt
   end.
 
 Definition undecided_routes : list route := [Route [[MPrim (thr (Z.to_nat 1048576) Yes)]] [HTerm]].
+(* a route without matchers that passes the connection on, then one that never decides *)
+Definition nonterm_undecided_routes : list route := [Route [] []; Route [[MPrim (thr (Z.to_nat 1048576) Yes)]] [HTerm]].
 Definition matchread_routes : list route := [Route [[MPrim (thr 1 Yes)]] [HCons 2; HTerm]].
 
 Definition run_model (tr : transport) (k : kind) (timeout : Z) (n : tnet) : res tnet :=
@@ -52,6 +54,7 @@ Definition run_model (tr : transport) (k : kind) (timeout : Z) (n : tnet) : res 
   match k with
   | KUndecided => serve tnet tnow sd rd tpush 40 undecided_routes timeout (st_init n)
   | KMatchRead => serve tnet tnow sd rd tpush 40 matchread_routes timeout (st_init n)
+  | KNonTermUndecided => serve tnet tnow sd rd tpush 40 nonterm_undecided_routes timeout (st_init n)
   | KEmptyFbRead =>
       compile tnet tnow sd rd tpush 40 0 [] timeout
         (chain tnet tnow rd tpush (compile tnet tnow sd rd tpush 40) 0 0 [HCons 2] (fun s => Cont s)) (st_init n)
